@@ -176,6 +176,7 @@ func (b *BloomSearchEngine) IngestRows(ctx context.Context, rows []map[string]an
 	}
 
 	req := &ingestRequest{rows: rows, doneChan: doneChan}
+	verifPoint("ingest.checked", int64(len(rows)), 0, req)
 
 	// Sending under the read lock means Stop cannot set stopped (and cancel
 	// b.ctx) until this send lands, so the shutdown drain always sees it. The
@@ -183,8 +184,10 @@ func (b *BloomSearchEngine) IngestRows(ctx context.Context, rows []map[string]an
 	// cannot block Stop indefinitely.
 	select {
 	case b.ingestChan <- req:
+		verifPoint("ingest.sent", int64(len(rows)), 0, req)
 		return nil
 	case <-ctx.Done():
+		verifPoint("ingest.ctxerr", int64(len(rows)), 0, req)
 		return ctx.Err()
 	}
 }
@@ -203,13 +206,16 @@ func (b *BloomSearchEngine) Flush(ctx context.Context) error {
 
 	doneChan := make(chan error, 1)
 	req := &ingestRequest{forceFlush: true, doneChan: doneChan}
+	verifPoint("ingest.checked", 0, 1, req)
 
 	select {
 	case b.ingestChan <- req:
+		verifPoint("ingest.sent", 0, 1, req)
 		b.stateMu.RUnlock()
 		// Wait for flush to complete (once committed, let it finish)
 		return <-doneChan
 	case <-ctx.Done():
+		verifPoint("ingest.ctxerr", 0, 1, req)
 		b.stateMu.RUnlock()
 		return ctx.Err()
 	}
@@ -235,6 +241,7 @@ func (b *BloomSearchEngine) ingestWorker() {
 	for {
 		select {
 		case <-b.ctx.Done():
+			verifPoint("actor.ctxdone", 0, 0, nil)
 			b.logger.Debug("ingest worker stopping; draining accepted requests")
 			// Stop set the stopped flag before canceling b.ctx, so ingestChan
 			// can no longer receive new requests: draining until empty
@@ -244,6 +251,7 @@ func (b *BloomSearchEngine) ingestWorker() {
 			for {
 				select {
 				case req := <-b.ingestChan:
+					verifPoint("actor.recv", int64(len(req.rows)), 1, req)
 					b.processIngestRequest(
 						b.flushCtx,
 						req,
@@ -256,6 +264,7 @@ func (b *BloomSearchEngine) ingestWorker() {
 				default:
 					// Flush any remaining buffered data (and ack any
 					// remaining waiters) before exiting.
+					verifPoint("actor.finalflush", int64(bufferedRowCount), 0, nil)
 					b.flushBufferedData(
 						partitionBuffers,
 						&doneChans,
@@ -263,11 +272,13 @@ func (b *BloomSearchEngine) ingestWorker() {
 						&bufferedBytes,
 						&bufferStartTime,
 					)
+					verifPoint("actor.exit", 0, 0, nil)
 					return
 				}
 			}
 		case req := <-b.ingestChan:
 			// Process the batch of rows
+			verifPoint("actor.recv", int64(len(req.rows)), 0, req)
 			b.processIngestRequest(
 				b.flushCtx,
 				req,
@@ -279,6 +290,7 @@ func (b *BloomSearchEngine) ingestWorker() {
 			)
 		case <-ticker.C:
 			// Check for time-based flush
+			verifPoint("actor.tick", int64(bufferedRowCount), 0, nil)
 			if bufferedRowCount > 0 && !bufferStartTime.IsZero() && time.Since(bufferStartTime) >= b.config.MaxBufferedTime {
 				b.flushBufferedData(
 					partitionBuffers,
@@ -355,6 +367,7 @@ func (b *BloomSearchEngine) processIngestRequest(
 	// An empty batch has nothing to make durable: ack immediately and leave
 	// the buffers untouched (no empty partition buffer, no 0-row block).
 	if len(req.rows) == 0 {
+		verifPoint("actor.ack_empty", 0, 0, req)
 		sendOptionalWithContext(ctx, req.doneChan, nil)
 		return
 	}
@@ -381,6 +394,7 @@ func (b *BloomSearchEngine) processIngestRequest(
 		for i, row := range rows {
 			rowBytes, err := json.Marshal(row)
 			if err != nil {
+				verifPoint("actor.ack_reject", int64(len(req.rows)), 0, req)
 				sendOptionalWithContext(ctx, req.doneChan, fmt.Errorf("failed to serialize row: %w", err))
 				return
 			}
@@ -532,6 +546,7 @@ func (b *BloomSearchEngine) processIngestRequest(
 
 	// Store the doneChan
 	*doneChans = append(*doneChans, req.doneChan)
+	verifPoint("actor.buffered", int64(*bufferedRowCount), int64(*bufferedBytes), req)
 
 	// Trigger flush if needed
 	if shouldFlush {
@@ -560,10 +575,13 @@ func (b *BloomSearchEngine) triggerFlush(partitionBuffers map[string]*partitionB
 		doneChans:        doneChans,
 	}
 
+	verifPoint("actor.enqueue", int64(len(partitionBuffers)), int64(len(doneChans)), &flushReq)
 	select {
 	case b.flushChan <- flushReq:
 		// Successfully queued for flush
+		verifPoint("actor.enqueued", int64(len(partitionBuffers)), int64(len(doneChans)), &flushReq)
 	case <-b.flushCtx.Done():
+		verifPoint("actor.enqueue_aborted", int64(len(partitionBuffers)), int64(len(doneChans)), &flushReq)
 		// Shutdown deadline expired: the flush worker will not take this
 		// request. Deliver the failure to ready waiters; flushCtx is already
 		// canceled so blocked channels are given up immediately.
